@@ -288,6 +288,7 @@ func runStress(r *Run, rng *Rng, submitters, perSubmitter int, prop string) {
 	env.FinalChecks()
 	env.CheckAcks()
 	env.CheckAcksFinal()
+	checkDedupFinal(env)
 	if sth := env.PubSTH(); sth != nil {
 		r.Count("final_tree_leaves", sth.Size)
 	}
